@@ -138,3 +138,80 @@ def origins(f, local, depth=8):
                 seen.add(src)
                 work.append((src, d + 1))
     return seen
+
+
+_LOCK_ACQ = re.compile(r"^parking_lot::lock_api::(RwLock::<.*>::(read|write|upgradable_read)|Mutex::<.*>::lock)$|^std::sync::(RwLock|Mutex)::<.*>::(read|write|lock)$")
+
+
+def lock_acquisitions(f, field=None):
+    """lock acquisition calls in f: [(call, field_name or None, mode)]"""
+    out = []
+    for c in f.normal_calls():
+        da = c.static_args or ""
+        m = _LOCK_ACQ.match(da)
+        if not m:
+            continue
+        mode = [g for g in m.groups() if g in ("read", "write", "upgradable_read", "lock")]
+        mode = mode[0] if mode else "lock"
+        fld = None
+        if c.args:
+            p = op_place(c.args[0])
+            fs = place_fields(p) if p else []
+            if not fs and p is not None:
+                for l in origins(f, p["l"], depth=4):
+                    r = ref_field_of(f, l)
+                    if r:
+                        fs = [r]
+                        break
+            if fs:
+                fld = fs[-1][1]
+        if field is None or fld == field:
+            out.append((c, fld, mode))
+    return out
+
+
+def guard_region(f, acq_call):
+    """blocks executed while the guard returned by `acq_call` is alive:
+    forward from the call's continuation, stopping at blocks that drop the guard (inclusive)"""
+    if acq_call.target is None:
+        return set(), set()
+    aliases = {acq_call.dst["l"]}
+    changed = True
+    while changed:
+        changed = False
+        for i in range(f.n):
+            for st in f.stmts(i):
+                rv = st["r"]
+                if rv.get("k") == "use" and "m" in rv["o"] and not proj(rv["o"]["m"]) and rv["o"]["m"]["l"] in aliases and not proj(st["d"]):
+                    if st["d"]["l"] not in aliases:
+                        aliases.add(st["d"]["l"])
+                        changed = True
+    drops = set()
+    for i in range(f.n):
+        t = f.term(i)
+        if t["k"] == "drop" and not proj(t["p"]) and t["p"]["l"] in aliases:
+            drops.add(i)
+        elif t["k"] == "call" and "f" in t and t["f"]["d"] == "std::mem::drop":
+            l = op_local(t["args"][0]) if t["args"] else None
+            if l in aliases:
+                drops.add(i)
+    # blocks strictly after a drop are outside; the drop block itself is the last inside
+    region = set()
+    work = [acq_call.target]
+    while work:
+        b = work.pop()
+        if b in region:
+            continue
+        region.add(b)
+        if b in drops:
+            continue
+        for s in f.succ(b):
+            if s not in region:
+                work.append(s)
+    return region, drops
+
+
+def call_in_region(f, call, region, drops):
+    """a call terminator is 'under the lock' if its block is in the region and the block is not one that
+    drops the guard by a drop-terminator (a call block cannot also be a drop block, except mem::drop itself)"""
+    return call.bb in region and call.bb not in drops
